@@ -18,7 +18,7 @@ C09 — the resource invariant.
 while an SDK operation runs.  This file: definition and the effect of every heap update.
 -/
 set_option linter.unusedVariables false
-namespace AsherahVerif.Env
+namespace AsherahVerif.Env.Res
 
 inductive Raw | none | obj (o : Nat) | sec (s m : Nat)
 deriving DecidableEq, Repr
@@ -488,4 +488,4 @@ theorem RIc.kill {T : CTab} {raw : Raw} {h : Nat → Int} {w : World} (hi : RIc 
     simp only [Bool.or_eq_false_iff] at hd'
     exact hi.ents c' kc0 hc' hd'.2
 
-end AsherahVerif.Env
+end AsherahVerif.Env.Res
